@@ -46,6 +46,33 @@ pub fn generate(src: &str, attrs: &[&str]) -> Result<String, String> {
     })
 }
 
+/// The same grammar given in several `#[grammar_inline]` attributes (the derive concatenates them).
+pub fn generate_pieces(pieces: &[String], attrs: &[&str]) -> Result<String, String> {
+    let pieces: Vec<String> = pieces.to_vec();
+    let attrs: Vec<String> = attrs.iter().map(|s| s.to_string()).collect();
+    let r = std::panic::catch_unwind(move || {
+        let mut text = String::new();
+        for p in &pieces {
+            text.push_str(&format!("#[grammar_inline = {:?}]\n", p));
+        }
+        for a in &attrs {
+            text.push_str(&format!("#[{}]\n", a));
+        }
+        text.push_str("struct P;");
+        let ts: proc_macro2::TokenStream = text.parse().expect("attribute text");
+        pest_typed_generator::derive_typed_parser(ts, false, false).to_string()
+    });
+    r.map_err(|p| {
+        if let Some(s) = p.downcast_ref::<String>() {
+            s.clone()
+        } else if let Some(s) = p.downcast_ref::<&str>() {
+            s.to_string()
+        } else {
+            "panic".into()
+        }
+    })
+}
+
 fn main() {
     let args: Vec<String> = std::env::args().collect();
     let mut o = Opts {
